@@ -87,6 +87,7 @@ type Contracts struct {
 	InertPkgs []string
 	Files    []string
 	DynBind  map[string]string // name of a func-valued field/variable -> the only function it holds
+	Tracks   map[string][]string // ghost var -> struct names / map types whose writes invalidate it
 }
 
 var labelRe = regexp.MustCompile(`^([A-Za-z_][A-Za-z0-9_\-]*):\s+(.*)$`)
@@ -103,7 +104,7 @@ func splitLabel(s string) (string, string) {
 }
 
 var clauseKeywords = map[string]bool{
-	"dynbind": true, "ghost-effect": true, "func": true, "property": true, "requires": true, "ensures": true, "modifies": true,
+	"tracks": true, "dynbind": true, "ghost-effect": true, "func": true, "property": true, "requires": true, "ensures": true, "modifies": true,
 	"loop": true, "at": true, "inline": true, "safe": true, "trusted": true, "noframe": true,
 	"inloop": true, "holds": true, "pure": true, "ghost": true, "spec": true, "axiom": true,
 	"iface": true, "monitor": true, "confined": true, "lemma": true, "dynpure": true, "note": true,
@@ -113,7 +114,7 @@ var clauseKeywords = map[string]bool{
 // loadContracts reads every *_verif.go file under dir (recursively, skipping hidden dirs)
 // and parses the //@ lines.
 func loadContracts(dir string, pkgPathOf func(dir string) string) (*Contracts, error) {
-	cs := &Contracts{Funcs: map[string]*FuncContract{}, Ifaces: map[string]*FuncContract{}, SpecFns: map[string]*SpecFn{}, Ghosts: map[string]*GhostVar{}, Confined: map[string][]string{}, DynBind: map[string]string{}}
+	cs := &Contracts{Funcs: map[string]*FuncContract{}, Ifaces: map[string]*FuncContract{}, SpecFns: map[string]*SpecFn{}, Ghosts: map[string]*GhostVar{}, Confined: map[string][]string{}, DynBind: map[string]string{}, Tracks: map[string][]string{}}
 	var files []string
 	filepath.Walk(dir, func(p string, info os.FileInfo, err error) error {
 		if err != nil {
@@ -340,6 +341,16 @@ func (cs *Contracts) parseFile(file, pkg string) error {
 			cur.Pure = true
 		case "dynpure":
 			cur.DynPure = append(cur.DynPure, strings.Fields(rest)...)
+		case "tracks":
+			// tracks <ghost>: Struct1, Struct2, map[K]V
+			idx := strings.Index(rest, ":")
+			if idx < 0 {
+				return fmt.Errorf("%s:%d: expected 'tracks <ghost>: <types>'", file, rl.line)
+			}
+			g := strings.TrimSpace(rest[:idx])
+			for _, x := range splitTop(rest[idx+1:], ',') {
+				cs.Tracks[g] = append(cs.Tracks[g], strings.TrimSpace(x))
+			}
 		case "dynbind":
 			f := strings.Fields(rest)
 			if len(f) != 2 {
